@@ -47,6 +47,17 @@ def run_lattice(ctx):
         e["RUSTFLAGS"] = "-Awarnings"
         t0 = time.time()
         p = subprocess.run(cmd, cwd=facts.REPO, env=e, stdout=subprocess.PIPE, stderr=subprocess.STDOUT, text=True)
+        if p.returncode != 0:
+            # a genuine type error reproduces; an environmental hiccup (another process cleaning or locking the shared
+            # target directory) does not: judge the second verdict, built in a private target directory
+            import tempfile
+            import shutil
+            priv = tempfile.mkdtemp(prefix="lattice-retry.", dir=os.path.join(facts.CACHE, "tgt"))
+            try:
+                e["CARGO_TARGET_DIR"] = priv
+                p = subprocess.run(cmd, cwd=facts.REPO, env=e, stdout=subprocess.PIPE, stderr=subprocess.STDOUT, text=True)
+            finally:
+                shutil.rmtree(priv, ignore_errors=True)
         return name, feats, p.returncode, p.stdout, time.time() - t0
     # one worker per target dir (cargo locks the target dir): shard by index
     shards = [[] for _ in range(nworkers)]
